@@ -32,7 +32,7 @@ struct ScriptedRandom(Mutex<Rng>);
 
 impl ScriptedRandom {
     fn new(seed: u64) -> Self {
-        Self(Mutex::new(Rng::new(seed)))
+        Self(Mutex::new(Rng::derived(seed)))
     }
     fn next(&self) -> u64 {
         self.0.lock().unwrap().next()
@@ -356,7 +356,7 @@ fn run_solve(case: &Value) -> Value {
         created: vec![],
         steps: vec![],
         next_id: 1000,
-        rng: Rng::new(rseed ^ 0x5eed),
+        rng: Rng::derived(rseed ^ 0x5eed),
         palette: case["palette"].as_array().unwrap().iter().map(|v| v.as_i64().unwrap()).collect(),
     }));
     let config = EvolutionConfigBuilder::default()
